@@ -511,6 +511,19 @@ fn session_grid(thorough: bool) -> Vec<Case> {
             v.push(Case { sess: s, objs, receive_once: true, fs: false, rx_variant: 0, direct: false });
         }
     }
+    // flute's own default sender configuration, untouched
+    for nobj in [1usize, 2, 5] {
+        let mut s = SessSpec::basic(OtiSpec::new(Scheme::NoCode, 1424, 64, 0, true));
+        s.default_config = true;
+        let mut objs = Vec::new();
+        for j in 0..nobj {
+            let mut o = ObjSpec::simple(30 + 9 * j, 80 + j as u8);
+            o.oti = if j % 2 == 0 { None } else { Some(pt_of(ALL_SCHEMES[j % 5])) };
+            o.location = format!("file:///default/obj{}.bin", j);
+            objs.push(o);
+        }
+        v.push(Case { sess: s, objs, receive_once: true, fs: false, rx_variant: 0, direct: false });
+    }
     // long sessions: 40 objects (more than the 10 FDT instances the receiver keeps, more than any list it
     // trims), each transferred twice, full FDT: exactly one copy each with receive-once
     for (multiplex, nq, interleave) in [(3u32, 1usize, 1u8), (1, 2, 2), (0, 1, 3)] {
